@@ -65,3 +65,22 @@ Definition counts_eqb (m : meas) (out : list (bits * Z)) : bool :=
   leqb (peqb (leqb Bool.eqb) Z.eqb) (counts_of m) out.
 Definition freq_eqb (S : list nat) (m : meas) (out : Q) : bool :=
   qeqb (mean_eps_counts S m) out && qeqb (mean_eps S m) out.
+
+(* ------------------------------------------------------------------ exact expectation values on the C09 model *)
+(* Gaussian-rational instance; literals: [xnum re im e] = (re + i im)/2^e, terms with this file's Pauli letters *)
+Require Import OQ.Base.Ring.
+Require OQ.Base.Mat OQ.Pauli.Algebra OQ.Pauli.Matrix OQ.Pauli.MatrixCases.
+Definition conv_letter (p : pauli) : Algebra.letter :=
+  match p with PX => Algebra.PX | PY => Algebra.PY | PZ => Algebra.PZ end.
+Definition xnum (re im : Z) (e : nat) : GQ := MatrixCases.dy re im e.
+Definition xterm (re im : Z) (e : nat) (l : list (nat * pauli)) : Algebra.term GQring :=
+  MatrixCases.tm re im e (map (fun qp => (fst qp, conv_letter (snd qp))) l).
+(* .real *)
+Definition gq_re (z : GQ) : GQ := (fst z, snd gq0).
+(* states: per circuit id the number of qubits and the amplitudes the simulator returned; tasks: (operator, circuit id) *)
+Definition exactm_eqb (states : list (nat * list GQ)) (ts : list (list (Algebra.term GQring) * nat))
+           (out : option (list (list GQ))) : bool :=
+  oeqb (leqb (leqb gq_eqb))
+       (@calculate_exact GQring MatrixCases.gq_nonzero Algebra.gq_is_zero gq_re nat
+          (fun c => let s := nth c states (0%nat, []) in (fst s, @Mat.vof_list GQring (snd s)))
+          (map (fun t => mkX (fst t) (snd t)) ts)) out.
